@@ -152,7 +152,10 @@ StrE(s)   == [k |-> "str", s |-> s]
 Var(n)    == [k |-> "var", n |-> n]
 Un(op, e) == [k |-> "un", op |-> op, e |-> e]                       \* ! -
 Bin(op, a, b) == [k |-> "bin", op |-> op, a |-> a, b |-> b]         \* + - * < <= == != && || ::
-If(c, a, b)   == [k |-> "if", c |-> c, a |-> a, b |-> b]            \* if c { a } else { b }
+\* if c { a } else { b };  ei (only when b is an `if`): written `else if ..` instead of `else { if .. }` -- the same
+\* rule in the language and in this specification, two different paths in check_if_else
+IfX(c, a, b, ei) == [k |-> "if", c |-> c, a |-> a, b |-> b, ei |-> ei]
+If(c, a, b)   == IfX(c, a, b, FALSE)
 Let(n, ann, e, b) == [k |-> "let", n |-> n, ann |-> ann, e |-> e, b |-> b]   \* { let n[: ann] = e; b }
 Lam(n, ann, b)    == [k |-> "lam", n |-> n, ann |-> ann, b |-> b]   \* (n[: ann]) -> b     (one parameter)
 Call(f, as)       == [k |-> "call", f |-> f, as |-> as]             \* f(as)  -- f any expression
@@ -195,7 +198,9 @@ ClassNames == {"G", "P", "Opt", "Process", "Main"}
 HasFn(c, f)  == \E d \in FnTable : d.cls = c /\ d.fn = f
 FnDecl(c, f) == CHOOSE d \in FnTable : d.cls = c /\ d.fn = f
 EnumVariants(c) == IF c = "Opt" THEN << [n |-> "None", a |-> <<>>], [n |-> "Some", a |-> <<TInt>>] >> ELSE <<>>
-IsEnumType(t)   == t.k = "nom" /\ t.c = "Opt"
+\* [XCR] the builtin signature declares Str as an enum class without variants (type_.rs create_builtin_module_signature):
+\* a variant pattern on a Str is "no such variant", not "not an enum"
+IsEnumType(t)   == t.k = "nom" /\ t.c \in {"Opt", "Str"}
 \* fields of a value of nominal type t: sequence of [n, t]
 StructFields(t) == CASE t.c = "P"    -> << [n |-> "a", t |-> TInt], [n |-> "b", t |-> TBool] >>
                      [] t.c = "Pair" -> << [n |-> "e0", t |-> t.ta[1]], [n |-> "e1", t |-> t.ta[2]] >>
@@ -248,7 +253,7 @@ PatCheck(p, t) ==
                    IF Len(p.vs) # Len(a) THEN [err |-> "pattern-arity", binds |-> <<>>]   \* [RULE] all data bound
                    ELSE [err |-> "", binds |-> BindSeq(p.vs, a)]
 \* which values of a type a pattern matches -- over the abstract values "None", "Some", "other"
-ShapesOf(t) == IF IsEnumType(t) THEN {"None", "Some"} ELSE {"other"}
+ShapesOf(t) == IF t = TOpt THEN {"None", "Some"} ELSE {"other"}
 PatMatchesShape(p, s) == p.k \in {"wild", "id"} \/ (p.k = "ctor" /\ p.n = s)
 \* [RULE] spec.md 6.11: every value of the matched type is covered by some arm (sub-patterns are irrefutable here)
 Exhaustive(arms, t) == \A s \in ShapesOf(t) : \E i \in 1..Len(arms) : PatMatchesShape(arms[i].p, s)
@@ -294,6 +299,11 @@ Member(fr, h) ==
       IF Meet(h, st).k = "fail" THEN [t |-> Err("type-mismatch"), tps |-> <<>>] ELSE [t |-> st, tps |-> <<>>]
     ELSE [t |-> ft, tps |-> d.tp]                  \* [XCR] "give up and let context help us more"
 
+(* Not transcribed (and never observed to matter in the replay): run_in_synthesis_mode does not clear
+   TypingContext.produced_placeholders on entry, so once a placeholder was made at some level of a member body
+   every later synthesised argument at that level is treated as "unchecked" and checked a second time with a
+   hint; the second check of a placeholder-free argument gives the same type.  Here `ph` is the flag of the
+   current run only. *)
 RECURSIVE Chk(_, _, _, _), ChkArgsNoHint(_, _, _, _), ChkArgsWithParams(_, _, _, _, _, _), Phase1(_, _, _, _, _, _, _, _, _)
 
 \* the arguments of a call whose callee has type `any`: each checked on its own; first error or any
@@ -576,6 +586,7 @@ LamId    == Lam("x", NoHint, Var("x"))                              \* (x) -> x
 LamInc   == Lam("x", TInt, Bin("+", Var("x"), IntE(1)))             \* (x: int) -> x + 1
 LamIncU  == Lam("x", NoHint, Bin("+", Var("x"), IntE(1)))           \* (x) -> x + 1
 LamNot   == Lam("x", NoHint, Un("!", Var("x")))                     \* (x) -> !x
+LamPanic == Lam("x", TInt, Call(FRef("Process", "panic", <<>>), <<StrE("p")>>))   \* (x: int) -> Process.panic("p")
 Some1    == Call(FRef("Opt", "Some", <<>>), <<IntE(1)>>)
 None0    == Call(FRef("Opt", "None", <<>>), <<>>)
 P1       == Call(FRef("P", "init", <<>>), <<IntE(1), BoolE(TRUE)>>)
@@ -586,18 +597,26 @@ TII      == Fn(<<TInt>>, TInt)
 TBI      == Fn(<<TBool>>, TInt)
 
 NoArms == {}
+(* A profile fixes the leaves and the constructs of one universe; TR_SIZE bounds the size.  Sizes used by
+   checks/typerules.py (quick / thorough):  core 5/6, chain 7/10, data 4/5, fun 5/6, gen 4/5, gend 5/6, mix 3/4,
+   tiny 4/5 -- about 0.25 M / 3.4 M terms. *)
 Profiles ==
   [ \* operators, if, let with and without annotation -- no functions
     core |-> [ leaves |-> {IntE(0), IntE(1), BoolE(TRUE), StrE("a"), Var("x")},
                unops |-> {"!", "-"}, binops |-> {"+", "*", "<", "==", "&&", "||", "::"},
                fields |-> {}, lamvars |-> {}, lamanns |-> {}, letvars |-> {"x"}, letanns |-> {NoHint, TInt, TBool},
-               argcounts |-> {}, ifs |-> TRUE, pairs |-> FALSE, arms |-> NoArms ],
+               argcounts |-> {}, ifs |-> TRUE, elseif |-> FALSE, pairs |-> FALSE, arms |-> NoArms ],
+    \* else-if chains: a branch that disagrees with the first one, at every position
+    chain |-> [ leaves |-> {IntE(1), StrE("a"), BoolE(TRUE)},
+               unops |-> {}, binops |-> {},
+               fields |-> {}, lamvars |-> {}, lamanns |-> {}, letvars |-> {}, letanns |-> {},
+               argcounts |-> {}, ifs |-> TRUE, elseif |-> TRUE, pairs |-> FALSE, arms |-> NoArms ],
     \* struct, enum, match (every arm-set shape), tuples, field access
     data |-> [ leaves |-> {IntE(1), BoolE(TRUE), Var("x"), Some1, None0, P1, FRef("Opt", "Some", <<>>), FRef("P", "init", <<>>),
                            FRef("P", "a", <<>>), FRef("Opt", "Nope", <<>>), FRef("Nope", "f", <<>>)},
                unops |-> {}, binops |-> {"+", "=="},
                fields |-> {"a", "b", "c", "e0"}, lamvars |-> {}, lamanns |-> {}, letvars |-> {"x"}, letanns |-> {NoHint, TOpt},
-               argcounts |-> {0, 1, 2}, ifs |-> FALSE, pairs |-> TRUE,
+               argcounts |-> {0, 1, 2}, ifs |-> FALSE, elseif |-> FALSE, pairs |-> TRUE,
                arms |-> { <<PCtor("None", <<>>), PCtor("Some", <<"x">>)>>, <<PCtor("Some", <<"x">>), PCtor("None", <<>>)>>,
                           <<PCtor("Some", <<"x">>)>>, <<PCtor("None", <<>>)>>, <<PWild>>, <<PId("x")>>,
                           <<PCtor("None", <<>>), PWild>>, <<PCtor("Some", <<"_">>), PId("x")>>,
@@ -608,7 +627,7 @@ Profiles ==
                unops |-> {"!"}, binops |-> {"+"},
                fields |-> {}, lamvars |-> {"x"}, lamanns |-> {NoHint, TInt, TBool}, letvars |-> {"y"},
                letanns |-> {NoHint, TInt, TII, TBI},
-               argcounts |-> {0, 1, 2}, ifs |-> TRUE, pairs |-> FALSE, arms |-> NoArms ],
+               argcounts |-> {0, 1, 2}, ifs |-> TRUE, elseif |-> FALSE, pairs |-> FALSE, arms |-> NoArms ],
     \* generic functions: implicit / explicit type arguments, solving from arguments and from the expected type
     gen  |-> [ leaves |-> {IntE(1), BoolE(TRUE), Var("y"), LamId, LamInc, LamNot, PanicU, PanicI,
                            FRef("G", "id", <<>>), FRef("G", "id", <<TInt>>), FRef("G", "id", <<TInt, TInt>>),
@@ -616,13 +635,19 @@ Profiles ==
                            FRef("G", "konst", <<>>), FRef("G", "konst", <<TBool, TInt>>), FRef("G", "inc", <<TInt>>)},
                unops |-> {}, binops |-> {"+"},
                fields |-> {}, lamvars |-> {}, lamanns |-> {}, letvars |-> {"y"}, letanns |-> {NoHint, TInt, TII},
-               argcounts |-> {1, 2, 3}, ifs |-> TRUE, pairs |-> FALSE, arms |-> NoArms ],
+               argcounts |-> {1, 2, 3}, ifs |-> TRUE, elseif |-> FALSE, pairs |-> FALSE, arms |-> NoArms ],
     \* the same, fewer leaves, one size deeper
-    gend |-> [ leaves |-> {IntE(1), BoolE(TRUE), Var("y"), LamId, LamIncU, PanicU,
+    gend |-> [ leaves |-> {IntE(1), BoolE(TRUE), Var("y"), LamId, LamIncU, LamInc, LamPanic, PanicU,
                            FRef("G", "id", <<>>), FRef("G", "pick", <<>>), FRef("G", "app", <<>>), FRef("G", "konst", <<>>)},
                unops |-> {}, binops |-> {},
                fields |-> {}, lamvars |-> {}, lamanns |-> {}, letvars |-> {"y"}, letanns |-> {NoHint, TII},
-               argcounts |-> {1, 2, 3}, ifs |-> TRUE, pairs |-> FALSE, arms |-> NoArms ],
+               argcounts |-> {1, 2, 3}, ifs |-> TRUE, elseif |-> FALSE, pairs |-> FALSE, arms |-> NoArms ],
+    \* every construct over a handful of leaves (also the universe of the rule-coverage run)
+    tiny |-> [ leaves |-> {IntE(1), BoolE(TRUE), StrE("a"), Var("x"), Some1, P1, LamInc, FRef("G", "id", <<>>)},
+               unops |-> {"!"}, binops |-> {"+", "==", "&&", "::"},
+               fields |-> {"a"}, lamvars |-> {"x"}, lamanns |-> {NoHint, TInt}, letvars |-> {"x"}, letanns |-> {NoHint, TInt},
+               argcounts |-> {0, 1, 2}, ifs |-> TRUE, elseif |-> FALSE, pairs |-> TRUE,
+               arms |-> { <<PCtor("None", <<>>), PCtor("Some", <<"x">>)>>, <<PCtor("Some", <<"x">>)>>, <<PWild>> } ],
     \* everything together, shallow: interactions between the constructs
     mix  |-> [ leaves |-> {IntE(0), BoolE(TRUE), StrE("a"), Var("x"), Var("y"), Some1, None0, P1, LamInc, LamId, PanicU,
                            FRef("G", "id", <<>>), FRef("G", "id", <<TBool>>), FRef("G", "pick", <<>>), FRef("G", "app", <<>>),
@@ -630,7 +655,7 @@ Profiles ==
                unops |-> {"!", "-"}, binops |-> {"+", "<", "==", "&&", "::"},
                fields |-> {"a", "e1"}, lamvars |-> {"x"}, lamanns |-> {NoHint, TInt}, letvars |-> {"y"},
                letanns |-> {NoHint, TInt, TII, TOpt},
-               argcounts |-> {0, 1, 2}, ifs |-> TRUE, pairs |-> TRUE,
+               argcounts |-> {0, 1, 2}, ifs |-> TRUE, elseif |-> FALSE, pairs |-> TRUE,
                arms |-> { <<PCtor("None", <<>>), PCtor("Some", <<"x">>)>>, <<PCtor("Some", <<"x">>)>>, <<PWild>>, <<PId("x")>> } ] ]
 Pf == Profiles[Profile]
 
@@ -660,6 +685,7 @@ WithFirst(c, S1, S2, S3, arity) ==
        \cup { Match(c, <<Arm(ps[1], b)>>) : ps \in ArmsOfLen(1), b \in S1 }
     [] arity = 2 ->
             (IF Pf.ifs THEN { If(c, a, b) : a \in S1, b \in S2 } ELSE {})
+       \cup (IF Pf.elseif THEN { IfX(c, a, b, TRUE) : a \in S1, b \in { x \in S2 : x.k = "if" } } ELSE {})
        \cup (IF Has(2) THEN { Call(c, <<a, b>>) : a \in S1, b \in S2 } ELSE {})
        \cup { Match(c, <<Arm(ps[1], a), Arm(ps[2], b)>>) : ps \in ArmsOfLen(2), a \in S1, b \in S2 }
     [] arity = 3 ->
